@@ -57,7 +57,11 @@ func atoi(s string) int {
 }
 
 func setup(logger string) {
-	args := config.Args{ConfigFile: "none", Logger: logger, LogLevel: "error", LogDir: os.TempDir()}
+	level := os.Getenv("VERIF_LOGLEVEL")
+	if level == "" {
+		level = "error"
+	}
+	args := config.Args{ConfigFile: "none", Logger: logger, LogLevel: level, LogDir: os.TempDir()}
 	if os.Getenv("DTAIL_HOSTNAME_OVERRIDE") == "" {
 		os.Setenv("DTAIL_HOSTNAME_OVERRIDE", "vhost")
 	}
